@@ -545,6 +545,93 @@ def snprintf_clause(prop, res):
         raise AnalysisBroken("R-PRINTF: only %d writes through d->buf found in snprntffuns.c (floor 2; today 4)" % res["stats"]["buffer_writes"])
 
 
+def arg_consumption(prop, res):
+    """Which arguments does each conversion of __gmp_doprnt take off the argument list?  The parser walks the va_list in step with the C
+    library, which formats the standard conversions later from a saved copy: a conversion that skips an argument the C library does not
+    take (or the reverse) shifts every later MPIR conversion of the same format onto the wrong argument.  For every case label of the
+    conversion switch the va_arg types reachable before control comes back to the switch are classified (integer, floating, pointer to
+    mpz / mpq / mpf / limbs, other pointer) and compared with what the C standard and the manual's conversion table say that character
+    takes; characters that take an argument must reach at least one va_arg."""
+    F = res["findings"]
+    ex = sa.export(sa.cfg_built())
+    fns = [f for p_, f in ex.functions(lambda p_: p_.endswith("printf/doprnt.c")) if f["name"] == "__gmp_doprnt"]
+    if len(fns) != 1:
+        raise AnalysisBroken("R-PRINTF: __gmp_doprnt not found")
+    fn = fns[0]
+    blocks = sa.blocks_by_id(fn)
+    sw = None
+    for b in fn["blocks"]:
+        t = b.get("term")
+        if t and t.get("kind") == "SwitchStmt":
+            n_ = sum(1 for s_ in b["succs"] if isinstance(s_, int) and blocks[s_].get("case", {}).get("k") == "int")
+            if sw is None or n_ > sw[1]:
+                sw = (b, n_)
+    if sw is None or sw[1] < 20:
+        raise AnalysisBroken("R-PRINTF: the conversion switch of __gmp_doprnt was not found")
+    swb = sw[0]
+
+    def cls(node):
+        ct = node.get("ct", "") or node.get("t", "")
+        if "*" in ct:
+            for k_, tag in (("__mpz_struct", "mpz"), ("__mpq_struct", "mpq"), ("__mpf_struct", "mpf")):
+                if k_ in ct:
+                    return tag
+            if "unsigned long" in ct and "char" not in ct:
+                return "limbs"
+            return "ptr"
+        if "double" in ct or "float" in ct:
+            return "flt"
+        return "int"
+    INTS = {"int", "mpz", "mpq", "limbs"}
+    ALLOWED = {}
+    for c in "diouxX":
+        ALLOWED[c] = (INTS, True)
+    for c in "aAeEfgG":
+        ALLOWED[c] = ({"flt", "mpf"}, True)
+    ALLOWED["c"] = ({"int"}, True)
+    ALLOWED["*"] = ({"int"}, True)
+    for c in "sp":
+        ALLOWED[c] = ({"ptr"}, True)
+    ALLOWED["n"] = ({"ptr", "mpz", "mpq", "mpf", "limbs", "int"}, True)      # %Nn: limb pointer and its size
+    for c in "m%":
+        ALLOWED[c] = (set(), False)
+    for c in "#+ '0-123456789.FNMQZhjlLqtz":
+        ALLOWED[c] = (set(), False)
+    judged = 0
+    for s_ in swb["succs"]:
+        if not isinstance(s_, int) or blocks[s_].get("case", {}).get("k") != "int":
+            continue
+        v = blocks[s_]["case"]["v"]
+        if not (0 < v < 128) or chr(v) not in ALLOWED:
+            continue
+        ch = chr(v)
+        seen, todo, got = set(), [s_], {}
+        while todo:
+            cur = todo.pop()
+            if cur in seen or cur == swb["id"]:
+                continue
+            seen.add(cur)
+            for el in blocks[cur]["elems"]:
+                sa.walk(el["e"], lambda n: got.setdefault(cls(n), el["line"]) if n.get("k") == "va_arg" else None)
+            todo += [x for x in blocks[cur]["succs"] if isinstance(x, int)]
+        judged += 1
+        res["stats"]["arg_consumption_cases"] += 1
+        allowed, must = ALLOWED[ch]
+        extra = sorted(k_ for k_ in got if k_ not in allowed)
+        if extra:
+            F.append(Finding(prop, "R-PRINTF", fn["file"], got[extra[0]], fn["name"], "conversion-takes-wrong-argument:%s:%s" % (ch, ",".join(extra)),
+                             "the '%s' conversion reaches va_arg of class %s at line %d before the next conversion is parsed; the C library takes %s "
+                             "for it, so every later conversion of the format reads the wrong argument" %
+                             (ch, "/".join(extra), got[extra[0]], "/".join(sorted(allowed)) or "no argument")))
+        elif must and not got:
+            F.append(Finding(prop, "R-PRINTF", fn["file"], blocks[s_]["elems"][0]["line"] if blocks[s_]["elems"] else 0, fn["name"],
+                             "conversion-takes-no-argument:%s" % ch,
+                             "the '%s' conversion never advances the argument list, but the C library takes an argument for it: later conversions "
+                             "read one argument too early" % ch))
+    if judged < 20:
+        raise AnalysisBroken("R-PRINTF: only %d conversion cases judged for argument consumption (floor 20)" % judged)
+
+
 def conversion_coverage(prop, res):
     """Exhaustiveness: the character switch of __gmp_doprnt / __gmp_doscan has a case for every flag, width / precision character, type
     and conversion that the manual's "Formatted Output Strings" / "Formatted Input Strings" list.  A conversion without a case falls
@@ -811,6 +898,7 @@ def run(prop="C18", tier="quick"):
     run_reset(prop, res)
     asprintf_headroom(prop, res)
     conversion_coverage(prop, res)
+    arg_consumption(prop, res)
     # ---- asprintf sizes (R-ALLOC.size restricted to printf/) ----------------------------------------
     ra = r_alloc.run(prop=prop, tier=tier)
     F += [f for f in ra["findings"] if "/printf/" in f.file or "/scanf/" in f.file]
